@@ -3,9 +3,129 @@ import PkgModel.Spec.Admits
 import PkgProofs.Props.C01
 /-!
 # C03 — `Specifier.contains` implements the PEP 440 operator semantics
+
+Model: `S.Spec.compare` / `S.Spec.contains` (`PkgModel/Specifier.lean`) — the code path with its string
+detours.  Spec: `Pep440.admits` (`PkgModel/Spec/Admits.lean`).
+
+The comparisons re-parse rendered versions (`Version(prospective.public)`, `Version(spec.base_version)`, …).
+That "re-parsing a rendered version gives it back" is C02's theorem; here it is an explicit hypothesis
+(`hscan`/`hpub`/`hbase` below, all three instances of `C02.scan_str`) so that it can be discharged by one `exact`.
 -/
 namespace C03
 open V Py S Pep440
+
+/-- `Version(v.base_version)` as a structure -/
+def baseVer (v : Ver) : Ver := ⟨v.epoch, v.release, none, none, none, none⟩
+
+/-! ### the six Python operators in terms of the PEP 440 order (C01) -/
+
+theorem lt_cmp (a b : Ver) : a.lt b = isLT (cmp a b) := by
+  rw [(C01.ops_agree a b).1, C01.cmp_eq_pep440]; cases cmp a b <;> rfl
+theorem le_cmp (a b : Ver) : a.le b = !isGT (cmp a b) := by
+  rw [(C01.ops_agree a b).2.1, C01.cmp_eq_pep440]; cases cmp a b <;> rfl
+theorem gt_cmp (a b : Ver) : a.gt b = isGT (cmp a b) := by
+  rw [(C01.ops_agree a b).2.2.1, C01.cmp_eq_pep440]; cases cmp a b <;> rfl
+theorem ge_cmp (a b : Ver) : a.ge b = !isLT (cmp a b) := by
+  rw [(C01.ops_agree a b).2.2.2, C01.cmp_eq_pep440]; cases cmp a b <;> rfl
+theorem eq_cmp (a b : Ver) : a.eq b = isEQ (cmp a b) := by
+  rw [(C01.eq_agrees a b).1, C01.cmp_eq_pep440]; cases cmp a b <;> rfl
+
+/-- two base versions are equal as versions iff epoch and zero-padded release agree -/
+theorem base_eq (a b : Ver) : (baseVer a).eq (baseVer b) = sameRelease a b := by
+  rw [eq_cmp]
+  simp only [cmp, baseVer, phase, preNum, postCmp, devCmp, localCmp, sameRelease]
+  have h4 : compare 4 4 = Ordering.eq := by decide
+  have h0 : compare 0 0 = Ordering.eq := by decide
+  rw [h4, h0]
+  by_cases he : a.epoch = b.epoch
+  · have : compare a.epoch b.epoch = .eq := Nat.compare_eq_eq.mpr he
+    rw [this]; simp only [he, beq_self_eq_true, Bool.true_and]
+    cases padCmp a.release b.release <;> rfl
+  · have hne : (a.epoch == b.epoch) = false := by simpa using he
+    rw [hne]
+    rcases Nat.lt_or_gt_of_ne he with h | h
+    · rw [Nat.compare_eq_lt.mpr h]; rfl
+    · rw [Nat.compare_eq_gt.mpr h]; rfl
+
+section ops
+variable {WF : Ver → Prop}
+
+/-! ### `<=`, `>=`, `==V`, `!=V`, `<`, `>`: C01 facts plus re-parsing -/
+
+theorem le_eq_spec (hpub : ∀ v, WF v → scan v.public = some (pub v))
+    (c v : Ver) (raw : Str) (wc : WF c) (hv : scan raw = some v) :
+    compareLE c raw = .ok (admits .le v false raw c) := by
+  simp [compareLE, version, hpub c wc, hv, admits, le_cmp, bind, Except.bind, pure, Except.pure]
+
+theorem ge_eq_spec (hpub : ∀ v, WF v → scan v.public = some (pub v))
+    (c v : Ver) (raw : Str) (wc : WF c) (hv : scan raw = some v) :
+    compareGE c raw = .ok (admits .ge v false raw c) := by
+  simp [compareGE, version, hpub c wc, hv, admits, ge_cmp, bind, Except.bind, pure, Except.pure]
+
+theorem eq_eq_spec (hpub : ∀ v, WF v → scan v.public = some (pub v))
+    (c v : Ver) (raw : Str) (wc : WF c) (hv : scan raw = some v) (hnw : endsWith raw [46, 42] = false) :
+    compareEqual c raw = .ok (admits .eq v false raw c) := by
+  cases hl : v.loc.isNone <;>
+    simp [compareEqual, version, hpub c wc, hv, hnw, hl, admits, eq_cmp, bind, Except.bind, pure, Except.pure]
+
+theorem ne_eq_spec (hpub : ∀ v, WF v → scan v.public = some (pub v))
+    (c v : Ver) (raw : Str) (wc : WF c) (hv : scan raw = some v) (hnw : endsWith raw [46, 42] = false) :
+    compareNotEqual c raw = .ok (admits .ne v false raw c) := by
+  have h := eq_eq_spec hpub c v raw wc hv hnw
+  simp [compareNotEqual, h, admits, bind, Except.bind, pure, Except.pure]
+
+/-- `<V` -/
+theorem lt_eq_spec (hbase : ∀ v, WF v → scan v.base = some (baseVer v))
+    (c v : Ver) (raw : Str) (wc : WF c) (wv : WF v) (hv : scan raw = some v) :
+    compareLT c raw = .ok (admits .lt v false raw c) := by
+  simp only [compareLT, version, hv, hbase c wc, hbase v wv, base_eq, lt_cmp, admits, bind, Except.bind, pure,
+    Except.pure]
+  cases isLT (cmp c v) <;> cases v.isPre <;> cases c.isPre <;> cases sameRelease c v <;> rfl
+
+/-- what `_compare_greater_than` computes, on structures -/
+def gtCode (c v : Ver) : Bool :=
+  isGT (cmp c v) && !(!v.isPost && c.isPost && sameRelease c v) && !(c.loc.isSome && sameRelease c v)
+
+theorem localStr_isSome (c : Ver) : c.localStr.isSome = c.loc.isSome := by
+  cases h : c.loc <;> simp [Ver.localStr, h]
+
+theorem gt_eq_code (hbase : ∀ v, WF v → scan v.base = some (baseVer v))
+    (c v : Ver) (raw : Str) (wc : WF c) (wv : WF v) (hv : scan raw = some v) :
+    compareGT c raw = .ok (gtCode c v) := by
+  simp only [compareGT, version, hv, hbase c wc, hbase v wv, base_eq, gt_cmp, gtCode, localStr_isSome, bind,
+    Except.bind, pure, Except.pure]
+  cases isGT (cmp c v) <;> cases v.isPost <;> cases c.isPost <;> cases sameRelease c v <;> cases c.loc.isSome <;> rfl
+
+/-- the class of inputs on which `>V` departs from the statement: a candidate with a local label that has V's
+release but is not V itself plus a label (DESIGN §8 row 4) -/
+def gtDefect (c v : Ver) : Bool := c.loc.isSome && sameRelease c v && !isEQ (cmp (pub c) v)
+
+theorem cmp_eq_sameRelease (a b : Ver) (h : isEQ (cmp a b) = true) : sameRelease (pub a) b = true := by
+  simp only [cmp] at h
+  simp only [sameRelease, pub]
+  rcases Nat.lt_trichotomy a.epoch b.epoch with he | he | he
+  · rw [Nat.compare_eq_lt.mpr he] at h; simp [Ordering.then, isEQ] at h
+  · rw [Nat.compare_eq_eq.mpr he] at h
+    simp only [he, beq_self_eq_true, Bool.true_and]
+    revert h; cases padCmp a.release b.release <;> simp [Ordering.then, isEQ]
+  · rw [Nat.compare_eq_gt.mpr he] at h; simp [Ordering.then, isEQ] at h
+
+/-- **`>V` (partial).**  Full statement `compareGT c raw = .ok (admits .gt v false raw c)` fails on the present
+code exactly on `gtDefect` (see `gt_defect_witness`). -/
+theorem gt_eq_spec_partial (hbase : ∀ v, WF v → scan v.base = some (baseVer v))
+    (c v : Ver) (raw : Str) (wc : WF c) (wv : WF v) (hv : scan raw = some v) (hcls : gtDefect c v = false) :
+    compareGT c raw = .ok (admits .gt v false raw c) := by
+  rw [gt_eq_code hbase c v raw wc wv hv]
+  congr 1
+  simp only [gtCode, admits, localVersionOf]
+  simp only [gtDefect] at hcls
+  have himp := cmp_eq_sameRelease (pub c) v
+  have hpp : sameRelease (pub (pub c)) v = sameRelease c v := rfl
+  rw [hpp] at himp
+  cases hL : c.loc.isSome <;> cases hS : sameRelease c v <;> cases hE : isEQ (cmp (pub c) v) <;>
+    simp_all
+
+end ops
 
 /-- `===S`: string equality, case-insensitively, with the candidate's normalised string -/
 theorem arbitrary_eq_spec (v c : Ver) (raw : Str) :
